@@ -4,6 +4,7 @@ import Spydr.Verilog.RoundTripShape
 import Spydr.Verilog.RoundTripSingle
 import Spydr.Verilog.RoundTripBits
 import Spydr.Verilog.RoundTripView
+import Spydr.Verilog.RoundTripTokD
 
 #print axioms Spydr.Verilog.getWires_spec
 #print axioms Spydr.Verilog.getWires_spec_single_all
@@ -59,3 +60,16 @@ import Spydr.Verilog.RoundTripView
 #print axioms Spydr.Verilog.Elab.c04_view
 #print axioms Spydr.Verilog.Elab.c04_ast
 #print axioms Spydr.Verilog.Elab.exNet_frag
+#print axioms Spydr.Verilog.Elab.expr_toks
+#print axioms Spydr.Verilog.Elab.star_toks
+#print axioms Spydr.Verilog.Elab.paramMap_toks
+#print axioms Spydr.Verilog.Elab.namedMapGo_toks
+#print axioms Spydr.Verilog.Elab.instP_toks
+#print axioms Spydr.Verilog.Elab.portDeclP_toks
+#print axioms Spydr.Verilog.Elab.cableDeclGo_toks
+#print axioms Spydr.Verilog.Elab.bodyGo_items
+#print axioms Spydr.Verilog.Elab.moduleP_toks
+#print axioms Spydr.Verilog.Elab.parseV_toks
+#print axioms Spydr.Verilog.Elab.parse_tokens
+#print axioms Spydr.Verilog.Elab.c04_tokens
+#print axioms Spydr.Verilog.Elab.exNet_tokens
